@@ -42,55 +42,80 @@ Fixpoint delp (t : N) (p : list (N * ballot)) : list (N * ballot) :=
   | (t', b) :: r => if N.eqb t t' then delp t r else (t', b) :: delp t r
   end.
 
-Record st := mkSt { pl : pool; pend : list (N * ballot); log : list ballot }.
+(* seen: what a preparing thread found in the pool at its lookup; prep: the ballot it then decided to send;
+   signed: every ballot of the local node a thread has produced for sending or voting (reused or newly signed) *)
+Record st := mkSt { pl : pool; pend : list (N * ballot); log : list ballot;
+                    seen : list (N * ballot); prep : list (N * ballot); signed : list ballot }.
 
-Definition init : st := mkSt [] [] [].
+Definition init : st := mkSt [] [] [] [] [] [].
 
 (* atomic steps of any number of threads; the ballot a thread tries to send is arbitrary (a superset of what
    the callers can produce after their pool lookup) *)
 Inductive astep :=
-| ALookup (t : N) (k : N)        (* pool.Ballot by a caller: reads only *)
-| ASet (t : N) (b : ballot)      (* DefaultBallotBroadcaster.set(b), under bb.l *)
-| ABcast (t : N).                (* broadcastFunc(held) *)
+| ALookup (t : N) (k : N)        (* pool.Ballot by a caller: reads the pool, remembers what it found *)
+| ASet (t : N) (b : ballot)      (* DefaultBallotBroadcaster.set(b), under bb.l, with ANY ballot b the thread produced *)
+| ABcast (t : N)                 (* broadcastFunc(held) *)
+| APrepare (t : N) (k f : N)     (* the prepare-ballot paths (baseBallotHandler.makeINITBallot / makeACCEPTBallot /
+                                    makeSuffrageConfirmBallot): reuse the ballot found at the lookup, else sign fact f *)
+| ASetPrepared (t : N).          (* Broadcast of the prepared ballot: the region under bb.l *)
 
 (* set: a ballot not signed by the local node is passed through; a local one is stored unless the pool
    already holds one for its key; what goes on is what the pool holds *)
 Definition do_set (s : st) (t : N) (b : ballot) : st :=
   if blocal b then
     match get (bkey b) (pl s) with
-    | Some h => mkSt (pl s) ((t, h) :: delp t (pend s)) (log s)
-    | None => mkSt ((bkey b, b) :: pl s) ((t, b) :: delp t (pend s)) (log s)
+    | Some h => mkSt (pl s) ((t, h) :: delp t (pend s)) (log s) (seen s) (prep s) (signed s)
+    | None => mkSt ((bkey b, b) :: pl s) ((t, b) :: delp t (pend s)) (log s) (seen s) (prep s) (signed s)
     end
-  else mkSt (pl s) ((t, b) :: delp t (pend s)) (log s).
+  else mkSt (pl s) ((t, b) :: delp t (pend s)) (log s) (seen s) (prep s) (signed s).
 
 (* the code before the fix: SetBallot's "already exists" ignored, b itself goes on *)
 Definition do_set_old (s : st) (t : N) (b : ballot) : st :=
   if blocal b then
     match get (bkey b) (pl s) with
-    | Some _ => mkSt (pl s) ((t, b) :: delp t (pend s)) (log s)
-    | None => mkSt ((bkey b, b) :: pl s) ((t, b) :: delp t (pend s)) (log s)
+    | Some _ => mkSt (pl s) ((t, b) :: delp t (pend s)) (log s) (seen s) (prep s) (signed s)
+    | None => mkSt ((bkey b, b) :: pl s) ((t, b) :: delp t (pend s)) (log s) (seen s) (prep s) (signed s)
     end
-  else mkSt (pl s) ((t, b) :: delp t (pend s)) (log s).
+  else mkSt (pl s) ((t, b) :: delp t (pend s)) (log s) (seen s) (prep s) (signed s).
 
 Definition do_bcast (s : st) (t : N) : st :=
   match getp t (pend s) with
-  | Some h => mkSt (pl s) (delp t (pend s)) (log s ++ [h])
+  | Some h => mkSt (pl s) (delp t (pend s)) (log s ++ [h]) (seen s) (prep s) (signed s)
   | None => s
   end.
 
+Definition note_signed (s : st) (b : ballot) : st :=
+  if blocal b then mkSt (pl s) (pend s) (log s) (seen s) (prep s) (signed s ++ [b]) else s.
+
+Definition do_lookup (s : st) (t k : N) : st :=
+  mkSt (pl s) (pend s) (log s)
+       (match get k (pl s) with Some h => (t, h) :: delp t (seen s) | None => delp t (seen s) end)
+       (prep s) (signed s).
+
+Definition do_prepare (s : st) (t k f : N) : st :=
+  let b := match getp t (seen s) with Some h => h | None => mkB k f true end in
+  note_signed (mkSt (pl s) (pend s) (log s) (seen s) ((t, b) :: delp t (prep s)) (signed s)) b.
+
+Definition do_set_prepared (s : st) (t : N) : st :=
+  match getp t (prep s) with Some b => do_set s t b | None => s end.
+
 Definition step (s : st) (a : astep) : st :=
   match a with
-  | ALookup _ _ => s
-  | ASet t b => do_set s t b
+  | ALookup t k => do_lookup s t k
+  | ASet t b => note_signed (do_set s t b) b
   | ABcast t => do_bcast s t
+  | APrepare t k f => do_prepare s t k f
+  | ASetPrepared t => do_set_prepared s t
   end.
 
 Definition step_old (s : st) (a : astep) : st :=
   match a with
-  | ALookup _ _ => s
-  | ASet t b => do_set_old s t b
-  | ABcast t => do_bcast s t
+  | ASet t b => note_signed (do_set_old s t b) b
+  | _ => step s a
   end.
+
+(* one uninterrupted run of a prepare-ballot path by thread t for key k, signing fact f if nothing is pooled *)
+Definition txn (t k f : N) : list astep := [ALookup t k; APrepare t k f; ASetPrepared t; ABcast t].
 
 Definition run (s : st) (l : list astep) : st := fold_left step l s.
 Definition run_old (s : st) (l : list astep) : st := fold_left step_old l s.
@@ -98,13 +123,14 @@ Definition run_old (s : st) (l : list astep) : st := fold_left step_old l s.
 (* ------------------------------------------------------------------ correspondence *)
 
 (* observation after a step: result of the lookup (for ALookup), the facts the pool holds for the watched
-   keys, the broadcast log as (key, fact, local) *)
-Definition obs := (option (option N) * list (option N) * list (N * N * bool))%type.
+   keys, the broadcast log as (key, fact, local), the local ballots produced so far as (key, fact) *)
+Definition obs := (option (option N) * list (option N) * list (N * N * bool) * list (N * N))%type.
 
 Definition observe (keys : list N) (s : st) (a : astep) : obs :=
   (match a with ALookup _ k => Some (option_map bfact (get k (pl s))) | _ => None end,
    map (fun k => option_map bfact (get k (pl s))) keys,
-   map (fun b => (bkey b, bfact b, blocal b)) (log s)).
+   map (fun b => (bkey b, bfact b, blocal b)) (log s),
+   map (fun b => (bkey b, bfact b)) (signed s)).
 
 Fixpoint run_obs (keys : list N) (s : st) (l : list astep) : list obs :=
   match l with
@@ -124,7 +150,8 @@ Fixpoint list_eqb' {A} (eqb : A -> A -> bool) (a b : list A) : bool :=
 
 Definition obs_eqb (a b : obs) : bool :=
   match a, b with
-  | (la, pa, ga), (lb, pb, gb) =>
+  | (la, pa, ga, sa), (lb, pb, gb, sb) =>
+      list_eqb' (fun x y => N.eqb (fst x) (fst y) && N.eqb (snd x) (snd y)) sa sb &&
       match la, lb with None, None => true | Some x, Some y => optN_eqb x y | _, _ => false end &&
       list_eqb' optN_eqb pa pb &&
       list_eqb' (fun x y => match x, y with (k, f, l), (k', f', l') => N.eqb k k' && N.eqb f f' && Bool.eqb l l' end) ga gb
